@@ -23,6 +23,10 @@ CLAIMED = {
          "Decides the structural premises (necessary conditions) of the bucket's exactly-once argument on every path of Block::{push,len,data,is_quiesced,drop} and AtomicBucket::{push,data_with,clear_with}; exactly-once delivery under all interleavings itself is NOT decided (residue)."),
  "C12": ("decision-table gates of Recency::should_store over MIR (switch-edge dominance), update-before-bump dominance in with_increment, forwarding of every Generational *Fn method, kind->state injectivity, series-identity agreement in the Prometheus exporter",
          "Decides on every path that a metric is deleted only under all five conditions (incl. the strict comparison) and that bookkeeping is refreshed/removed as required; clock behaviour is not decided."),
+ "C07": ("who-may-call on the destructive read, entry-API-only creation under a held write guard, aggregation-arm tables, provenance of rendered _count/_sum/+Inf values, label-merge order, or_insert-only description table, recorder forwarding — over MIR of the Prometheus exporter",
+         "Every sample's path from bucket to rendered line is decided structurally (drain once, record once, cumulative counters rendered); f64 sum equality and concurrency of the bucket itself (C05) are residue."),
+ "C08": ("abstract output-alphabet analysis of the escaper (per-iteration reachability from the character switch), predicate-table and gate analysis of the name sanitisers, family-name agreement and TYPE-dominates-samples over render's CFG, suffix/label tables, type/variant condition agreement",
+         "Well-formedness is decided for all input strings because every emitted unit is shown to be a complete escape or a harmless character on every path; decided for all Unit values and both distribution variants."),
 }
 checks = []
 for p in props:
